@@ -10,6 +10,12 @@ fresh objects: a history may store an object that has been around (``existing``:
 back, moved to another container or attached at last; attached objects stored again where they are), build containers
 bottom-up (members - aliases with a constructor parent included - stored before the container gets its place), create values
 without storing them (``new``) and work on containers that hang outside the tree (receiver ``@<creation label>``).
+The implicit stubs merge of ``set_member`` is part of the histories: regular / stubs module pairs whose members (flat literal
+lists, dotted names nest below classes) mix every kind on both sides - resolvable, unresolvable and cyclic aliases, same-named
+members of different kinds, stub-only and runtime-only members in every order, classes both sides have - stored one over the
+other in both orders, at the collection level and as submodules; a grid of such pairs is enumerated (``merge_histories``),
+random histories draw them too.  The model says which object stays in the tree (the regular module), which members the
+regular side adopts (recursively below containers both sides have) and when an adopted alias registers.
 ALL histories of length <= 3 over a fixed operation alphabet are enumerated; long histories are random.
 
 Oracle: *history + executable model*.  ``vf.gen.c16_model`` (plain dict tree + alias pointers, no Griffe
@@ -23,7 +29,8 @@ import itertools
 import random
 from pathlib import Path
 
-from vf.gen.c16_model import (MCyclic, MKeyError, MOutOfDomain, MUnresolvable, MValueError, N, Tree, parts_of)
+from vf.gen.c16_model import (MCyclic, MKeyError, MOutOfDomain, MUnresolvable, MValueError, N, Tree, adoptable_members, merge_outside_model,
+                              merge_stubs_model, parts_of, shape_of_node, shape_of_spec)
 
 PROP = "C16"
 LEVEL = "exploration"
@@ -35,7 +42,9 @@ RULE = ("histories over the universe {collection; modules a,b; classes a.K,b.L; 
         "targets, alias.target = self/same-path/other, resolve, stubs-module replacement, invalid keys, twin aliases, existing "
         "objects stored again in place / put back after deletion or replacement, a class built bottom-up), plus seeded random "
         "histories of length 5..40 generated against the evolving state (values: fresh, bottom-up built, existing objects moved / "
-        "put back / re-set, detached values and detached receivers). distinct = digest of the literal operation list; "
+        "put back / re-set, detached values and detached receivers, regular/stubs module pairs with mixed members at the "
+        "collection level and as submodules); plus an enumerated grid of 3024 module-pair histories (probe member of 9 x 7 "
+        "flavours x 3 positions x top/nested x both orders x set_member/__setitem__ x collection/submodule level). distinct = digest of the literal operation list; "
         "non-trivial = the history replaces (set_member/__setitem__) an object that a resolved in-tree alias points at")
 LEVEL_TEXT = ("Every history of the enumerated bounded space (all sequences of <=3 operations of the alphabet) and every sampled "
               "long history is executed against the real classes; after each single operation the whole tree is walked and "
@@ -47,7 +56,10 @@ LEVEL_NOTE = ("trusted: the ~150-line reference model (vf/gen/c16_model.py) and 
               "operations are recorded, not judged (the statement does not fix them); frame conditions the statement does not "
               "state (e.g. an alias retargeted through a stale back-reference) are counted, not judged; values are always "
               "stored under their own name and in one place at a time (no renaming, no sharing: an existing object is only stored "
-              "again where it is, or elsewhere once it hangs nowhere); modules live at the collection level; a string alias never "
+              "again where it is, or elsewhere once it hangs nowhere); modules live at the collection level or below a module; "
+              "stubs merges that would work through a regular-side alias into a container, or need a modules collection the "
+              "regular module does not have yet (regular module set over stubs with aliases to look through), are outside the domain; "
+              "a string alias never "
               "sits at the path its own target string names; no inheritance between the classes")
 TECHNIQUE = "runtime monitoring: history + executable reference model, global invariant walker after every step, icontract post-conditions on the mutators"
 REQUIRED_COUNTERS = ["steps_walked", "parent_links_checked", "own_path_retrievals", "lookup_forms_compared",
@@ -56,7 +68,9 @@ REQUIRED_COUNTERS = ["steps_walked", "parent_links_checked", "own_path_retrieval
                      "ops_on_collection", "ops_with_tuple_key", "ops_with_dotted_key", "invalid_ops_rejected",
                      "inherit_lookup_forms_compared", "inherit_deleted_paths_checked_gone",
                      "existing_objects_reinserted", "existing_objects_reset_in_place", "reattached_alias_backrefs_checked",
-                     "bottom_up_containers_attached", "ops_on_detached_receiver"]
+                     "bottom_up_containers_attached", "ops_on_detached_receiver",
+                     "stubs_merges_regular_first", "stubs_merges_stubs_first", "stubs_merges_below_a_module", "stub_only_members_adopted",
+                     "stubs_merges_into_module_with_unresolved_alias"]
 EXHAUSTIVE = {"quick": True, "thorough": True}
 ASSUMPTIONS = ["exhaustive only over sequences of <=3 operations of the stated alphabet (<=4 over a 16-operation sub-alphabet in the "
                "thorough tier); longer histories are sampled",
@@ -110,7 +124,10 @@ def _snap_old(self, key):  # noqa: ANN001, ANN202
         old = self.members.get(name)
         if old is None or old.is_alias:
             return (old, [])
-        return (old, [al for al in old.aliases.values() if al._target is old])
+        # (an alias whose own path is the path of the member - e.g. a transient wrapper built by looking through another alias
+        # onto a twin subtree - cannot follow: the value will sit at that very path and an alias never targets its own path)
+        here = old.path
+        return (old, [al for al in old.aliases.values() if al._target is old and al.path != here])
     except Exception:  # noqa: BLE001
         return None
 
@@ -299,14 +316,16 @@ ALPHABET = [
 ]
 SUB_ALPHABET = [0, 1, 3, 6, 7, 9, 11, 15, 16, 19, 22, 25, 27, 28, 29, 30, 38, 40, 41]   # thorough: all sequences of length 4 over these
 
+STUB_DEFAULT_MEMBERS = [["function", "sf", {}]]     # what a value of kind "stub" holds when the operation does not say
 STRING_TARGETS = ["a.K", "b.L.h", "b.z", "a.g", "b.ag", "a.K.f", "a.nope", "b.L", "a.y"]
 LEAF_NAMES = ["f", "x", "g", "y", "h", "z", "n", "w", "ak", "ag", "al"]   # alias names are always leaf names (see model)
 CLASS_NAMES = ["K", "L", "M"]
 MODULE_NAMES = ["a", "b", "c"]
+SUBMODULE_NAMES = ["s", "t"]
 
 
 class StepInfo:
-    __slots__ = ("new_real", "old_backrefs", "old_backref_map", "retargeted", "new_node", "reattached", "prev")
+    __slots__ = ("new_real", "old_backrefs", "old_backref_map", "retargeted", "new_node", "reattached", "prev", "moved")
 
     def __init__(self) -> None:
         self.new_real = None
@@ -315,6 +334,7 @@ class StepInfo:
         self.old_backref_map: dict = {}
         self.retargeted: list = []
         self.reattached = None      # the existing alias this step stored (again): its registration must have been refreshed
+        self.moved: list = []       # stub-only members the stubs merge of this step handed to the regular side
         self.prev: dict = {}        # uid -> (stamp, reg_path) of the aliases this step re-bound, as they were before
 
 
@@ -357,21 +377,12 @@ class World:
         if kind in ("function", "attribute", "class"):
             node = self.new_node(kind, name)
             obj = {"function": g.Function, "attribute": g.Attribute, "class": g.Class}[kind](name)
-        elif kind == "module" and opt.get("members"):
-            node = self.new_node("module", name)
-            obj = g.Module(name, filepath=Path(f"/nonexistent-vf/{name}.py"))
         elif kind in ("module", "stub"):
             suffix = ".pyi" if kind == "stub" else ".py"
             node = self.new_node("module", name, suffix=suffix)
             obj = g.Module(name, filepath=Path(f"/nonexistent-vf/{name}{suffix}"))
-            if kind == "stub":
-                sub = self.new_node("function", "sf")
-                sobj = g.Function("sf")
-                self.real[sub.uid] = sobj
-                self.node_of[id(sobj)] = sub
-                node.members["sf"] = sub
-                sub.up = node
-                obj.set_member("sf", sobj)
+            if kind == "stub" and "members" not in opt:
+                opt = {**opt, "members": STUB_DEFAULT_MEMBERS}
         elif kind == "alias_str":
             node = self.new_node("alias", name, target_path=opt["target"])
             if opt.get("ctor_parent") and cont_real is not None:
@@ -398,14 +409,23 @@ class World:
         if label is not None:
             node.label = label
             self.labels[label] = node
-        if kind in ("class", "module") and opt.get("members"):
+        if kind in ("class", "module", "stub") and opt.get("members"):
+            # flat list, in storing order; a dotted member name places the member below a class listed earlier (nesting without
+            # nesting the literal: the recorder keeps literals up to a fixed depth)
             for mkind, mname, mopt in opt["members"]:
-                if mkind not in ("function", "attribute", "class", "alias_str", "alias_obj"):
+                if mkind not in ("function", "attribute", "class", "alias_str", "alias_obj") or mopt.get("members"):
                     raise ValueError(mkind)
-                mnode, mobj = self.make(mkind, mname, mopt, obj, node, None if label is None else f"{label}/{mname}")
-                obj.set_member(mname, mobj)
-                node.members[mname] = mnode
-                mnode.up = node
+                *pre, leaf = mname.split(".")
+                hobj, hnode = obj, node
+                for p in pre:
+                    hnode = hnode.members[p]
+                    if hnode.kind != "class":
+                        raise ValueError(mname)
+                    hobj = self.real[hnode.uid]
+                mnode, mobj = self.make(mkind, leaf, mopt, hobj, hnode, None if label is None else f"{label}/{mname}")
+                hobj.set_member(leaf, mobj)
+                hnode.members[leaf] = mnode
+                mnode.up = hnode
                 if mnode.kind == "alias":
                     self.bind(mnode, None)
             self.rec.count("values_built_bottom_up")
@@ -432,7 +452,8 @@ class World:
             return None, self.tree.root, self.coll, [], False
         if where.startswith("@"):        # a container designated by its creation label: it may be attached or not
             node = self.labels.get(where[1:])
-            if node is None or node.kind not in ("module", "class"):
+            if node is None or node.kind not in ("module", "class") or node.suffix != ".py":
+                # (a stubs module is used up by a merge: its members were handed to the regular side)
                 raise Inapplicable(f"no container labelled {where}")
             detached = not self.tree.in_tree(node)
             if detached:
@@ -455,7 +476,7 @@ class World:
                                            for rel, n in self.tree.subtree(node))
         else:
             for mkind, mname, mopt in opt.get("members", ()):
-                self.refuse_self_naming(mkind, mopt, [*dest, mname])
+                self.refuse_self_naming(mkind, mopt, [*dest, *mname.split(".")])
             return
         if bad:
             raise Inapplicable("a string alias would sit at the path its own target string names")
@@ -474,8 +495,15 @@ class World:
             return node, self.real[node.uid], "invalid-key"
         cont_node, cont_members, crossed = loc
         name = parts_of(key)[-1]
-        if crossed is not None or name != node.name or (node.kind == "module") != (cont_node is None) or node.suffix != ".py":
+        if crossed is not None or name != node.name or node.suffix != ".py":
             raise Inapplicable("outside the domain of re-insertions")
+        if node.kind == "module":
+            # a module goes to the collection level only when it never had a parent (the collection does not reset one), and
+            # never below a class
+            if (cont_node is None and node.up is not None) or (cont_node is not None and cont_node.kind != "module"):
+                raise Inapplicable("outside the domain of re-insertions (module levels)")
+        elif cont_node is None:
+            raise Inapplicable("outside the domain of re-insertions (only modules at the collection level)")
         if cont_members.get(name) is node:
             return node, self.real[node.uid], "in-place"
         if not self.tree.is_detached_root(node) or self.tree.inside(cont_node, node):
@@ -544,22 +572,35 @@ class World:
             cont_real = self.real[cont_node.uid] if cont_node is not None else None
         if expect == "ok" and crossed is None:
             self.refuse_self_naming(kind, opt, (cont_node.path().split(".") if cont_node is not None else []) + [name])
+        if expect == "ok" and crossed is None and kind in ("module", "stub") and cont_node is not None and cont_node.kind != "module":
+            raise Inapplicable("modules live at the collection level or below a module")
         if expect == "ok" and crossed is None and api == "set_member" and kind in ("module", "stub", "existing"):
             there = cont_members.get(name)
             if there is not None and there.kind == "module":
                 if kind == "existing":
                     vnode = self.tree.node_at(opt["ref"][1:]) if opt["ref"].startswith("=") else self.labels.get(opt["ref"])
-                    vkinds = {n: m.kind for n, m in vnode.members.items()} if vnode is not None else {}
+                    vshape = shape_of_node(vnode) if vnode is not None and vnode is not there else {}
                     vsuffix = vnode.suffix if vnode is not None else there.suffix
                 else:
-                    vkinds = {"sf": "function"} if kind == "stub" else {m[1]: m[0].split("_")[0] for m in opt.get("members", ())}
+                    vshape = shape_of_spec(opt.get("members", STUB_DEFAULT_MEMBERS if kind == "stub" else []))
                     vsuffix = ".pyi" if kind == "stub" else ".py"
-                if vsuffix != there.suffix and any(vkinds[n] in ("class", "alias") or there.members[n].kind in ("class", "alias")
-                                                   for n in set(vkinds) & set(there.members)):
-                    # domain: the model knows the stubs merge one level deep (members only the stubs have are adopted).  What the
-                    # merger does with a name both sides have is its own business when a class (merged recursively) or an alias
-                    # (looked through; in a module that is not attached yet this aborts the merge half-way) is involved
-                    raise Inapplicable("stubs merge of two modules that share a class or an alias name")
+                if vsuffix != there.suffix:
+                    why = (merge_outside_model(vshape, shape_of_node(there), True) if vsuffix == ".py"
+                           else merge_outside_model(shape_of_node(there), vshape, False))
+                    if why is None and vsuffix == ".py" and any(sm.kind == "alias" and sm.target is not None and sm.target.kind == "alias"
+                                                                for sm in adoptable_members(vshape, there)):
+                        # (same reason: registering an adopted alias follows its chain, which may have to resolve a link that
+                        # now sits in the not yet attached module)
+                        why = "adopted stub alias over an alias chain in a regular module that has no collection yet"
+                    dest_path = ".".join((cont_node.path().split(".") if cont_node is not None else []) + [name])
+                    if why is None and kind != "existing" and any(m[0] == "alias_obj" and m[2]["target"] == f"{dest_path}.{m[1]}"
+                                                                   for m in opt.get("members", ())):
+                        # the value is a twin of the module in the tree and is thrown away after the merge: an alias in it that is
+                        # built on the object at the very path it claims is the constructor bypass of the self-target guard,
+                        # without the alias ever being stored in the tree
+                        why = "a member alias of the value is built on the object at the very path it claims"
+                    if why:
+                        raise Inapplicable("stubs merge outside the modelled domain: " + why)
         how = "fresh"
         if kind == "existing":
             node, value, how = self.existing(opt, key, expect, loc)
@@ -625,13 +666,23 @@ class World:
         if api == "set_member" and old is not None and old.kind != "alias":
             if old.kind == "module" and node.kind == "module" and old.suffix != node.suffix:
                 stubs, module = (old, node) if old.suffix == ".pyi" else (node, old)
-                for mname, sm in stubs.members.items():
-                    if mname not in module.members:
-                        module.members[mname] = sm
-                        sm.up = module
-                        self.ever.add(dest + "." + mname)
+                moved: list[N] = []
+                merge_stubs_model(module, stubs, moved)
                 stored = module
-                self.tags.add("stubs-merged")
+                self.tags.add("stubs-merged:" + ("regular-first" if module is old else "stubs-first"))
+                self.rec.count("stubs_merges_mirrored")
+                self.rec.count("stubs_merges_regular_first" if module is old else "stubs_merges_stubs_first")
+                if cont_node is not None:
+                    self.rec.count("stubs_merges_below_a_module")
+                if any(m.kind == "alias" and m.target is None for m in module.members.values()):
+                    self.rec.count("stubs_merges_into_module_with_unresolved_alias")
+                self.rec.count("stub_only_members_adopted", len(moved))
+                info.moved = moved
+                for sm in moved:
+                    if sm.kind == "alias":
+                        # an adopted stub alias is stored through set_member: registered under the path it has at that moment
+                        # (the merge runs before the value gets its place: a regular module set over stubs is not attached yet)
+                        self.bind(sm, None)
             info.retargeted = list(pointing)
         cont_members[name] = stored
         stored.up = cont_node
@@ -639,7 +690,21 @@ class World:
         if stored.kind == "alias":
             self.bind(stored, None)     # attaching an alias (re-)registers it with its target, under the path it has now
         for al in info.retargeted:      # (the value's path - and what a string target designates - is that of the attached value)
+            if stored is old and not any(a is self.real[al.uid] for a in info.old_backrefs):
+                # the object stays (stored again in place, or the regular module of a stubs merge): an alias it did not list is
+                # not touched - in particular not registered again (whether the missing listing is acceptable is judged below
+                # and by the walker, with the registration times as they were)
+                continue
             self.bind(al, stored)
+        if api == "set_member" and old is not None and old.kind != "alias":
+            # set_member assigns the value to EVERY alias the replaced object listed: one that already pointed at the value (a
+            # stale entry left behind by an earlier retargeting) keeps its target but registers again, now
+            for ra in info.old_backrefs:
+                ln = self.node_of.get(id(ra))
+                if (ln is not None and ln.kind == "alias" and not any(ln is x for x in info.retargeted) and ln.target is stored
+                        and ra._target is self.real[stored.uid]):
+                    self.bind(ln, None)
+                    self.rec.count("stale_backref_reregistrations_observed")
         for rel, sub in self.tree.subtree(stored):
             self.ever.add(".".join([dest, *rel]))
         if how != "fresh":
@@ -1003,12 +1068,18 @@ class World:
             if want is None or rt is not real[want.uid]:
                 before = self.pre_designated.get(node.uid)
                 if before is None or rt is not real[before.uid]:
-                    if info.new_real is not None and rt is info.new_real and any(a is obj for a in info.old_backrefs):
+                    if info.new_real is not None and rt is info.new_real and (any(a is obj for a in info.old_backrefs)
+                                                                              or self.chain_ends_at(want, info.new_node)):
                         # resolved behind the model's back (by the probing of the previous walk), listed in the aliases of the
                         # final target of its chain, and retargeted with them by this set_member: counted, not judged (see below)
                         rec.count("stale_backref_retargets_observed")
                         self.bind(node, info.new_node)
                         return
+                    parts = node.target_path.split(".")
+                    if any((n := self.tree.node_at(".".join(parts[:i]))) is not None and n.kind == "alias" for i in range(1, len(parts))):
+                        # the real alias resolved itself through an alias on its target path: what such a path designates is
+                        # outside the model (as when the model has to resolve it itself)
+                        raise MOutOfDomain("string target path crosses an alias")
                     raise Violation(f"alias {where} -> {node.target_path!r} got resolved to something else than the object at that path",
                                     repr(rt), repr(want))
                 want = before
@@ -1044,6 +1115,17 @@ class World:
             else:
                 raise Violation(f"target of alias {where} changed although no operation retargeted it", repr(rt), repr(node.target))
 
+    def chain_ends_at(self, start: N | None, end: N | None) -> bool:
+        """Does the alias chain starting at model node ``start`` end at ``end``?  (An alias is listed in the aliases of the FINAL
+        target of its chain; set_member re-targets everything listed there, so a freshly resolved link of such a chain may be
+        pointed straight at the value although the step's snapshot of the back-references does not show it yet.)"""
+        if start is None or end is None or start.kind != "alias":
+            return False
+        try:
+            return self.tree.final(start) is end
+        except (MCyclic, MUnresolvable, MOutOfDomain):
+            return False
+
     def designated_by_path(self, node: N, rt):  # noqa: ANN001, ANN201
         """The model node the alias' target path designates (now, or before this step) if that is the real target ``rt``."""
         for want in (self.tree.node_at(node.target_path), self.pre_designated.get(node.uid)):
@@ -1058,7 +1140,14 @@ class World:
             return False
         lnode = self.node_of.get(id(listed))
         if lnode is None:
-            return False
+            # not an object of the history: a transient view built by looking through an alias (Alias.members wraps every member
+            # of the target in a fresh alias whose parent is the alias looked through, and each registers under <alias path>.<name>).
+            # When that path is also the path of a live alias (twin subtrees: a replaced module, a subtree reachable both directly
+            # and through an alias) the view takes the slot whenever somebody looks; no registration time can be given for it
+            wrapper = listed.parent is not None and listed.parent.is_alias
+            if wrapper:
+                self.rec.count("slots_held_by_transient_alias_views")
+            return wrapper
         # (an alias the model still takes for unresolved got resolved - and registered - by the probing of this very walk)
         return lnode.reg_stamp > live_stamp or (lnode.target is None and listed._target is not None)
 
@@ -1195,6 +1284,59 @@ def report(rec, ops: list, out: dict) -> None:  # noqa: ANN001
                  tags=out["tags"], tried=ALL_FINDINGS)
 
 
+# -- module pairs: the implicit stubs merge, enumerated ---------------------------------------------
+CONCRETE_PROBES = ["absent", "function", "attribute", "class", "alias->function", "alias->class", "alias_obj->attribute",
+                   "alias unresolvable", "alias cyclic"]
+STUB_PROBES = ["absent", "function", "attribute", "class", "alias->attribute", "alias unresolvable", "alias cyclic"]
+
+
+def _probe_members(what: str, at: str, mod_path: str, side: str) -> list:
+    """The member(s) that put one probe name of the given flavour into a module ('at': "p" or "C.p")."""
+    pre = at.rsplit(".", 1)[0] + "." if "." in at else ""
+    partner = pre + "q" + side      # the second link of a cyclic pair lives next to the probe
+    table = {
+        "absent": [],
+        "function": [["function", at, {}]],
+        "attribute": [["attribute", at, {}]],
+        "class": [["class", at, {}], ["function", f"{at}.m{side}", {}]],
+        "alias->function": [["alias_str", at, {"target": "a.g"}]],
+        "alias->class": [["alias_str", at, {"target": "b.L"}]],
+        "alias->attribute": [["alias_str", at, {"target": "b.z"}]],
+        "alias_obj->attribute": [["alias_obj", at, {"target": "a.y"}]],
+        "alias unresolvable": [["alias_str", at, {"target": "ext.impl.p"}]],
+        "alias cyclic": [["alias_str", at, {"target": f"{mod_path}.{partner}"}], ["alias_str", partner, {"target": f"{mod_path}.{at}"}]],
+    }
+    return table[what]
+
+
+def merge_histories():  # noqa: ANN201
+    """Every pair (regular module, stubs module) of a small grid - one probe name whose flavour varies independently on both
+    sides (every kind; resolvable, unresolvable and cyclic aliases), at the top of the module or below a class both sides have,
+    at every position among stub-only / runtime-only / shared members - stored one over the other in both orders, at the
+    collection level and as a submodule, through set_member (merge) and __setitem__ (plain replacement), with an alias
+    pointing at the module in between and a mutation below an adopted stub-only class afterwards."""
+    for where, key, mp in (("coll", "c", "c"), ("a", "s", "a.s")):
+        for at in ("p", "C.p"):
+            for cp in CONCRETE_PROBES:
+                for sp in STUB_PROBES:
+                    for pos in (0, 1, 2):
+                        reg = [["class", "C", {}], *_probe_members(cp, at, mp, "r"), ["function", "r", {}], ["function", "C.m", {}],
+                               ["function", "both", {}]]
+                        sprobe = _probe_members(sp, at, mp, "s")
+                        head = [["class", "C", {}]]
+                        fill = [["class", "E", {}], ["function", "E.z", {}], ["alias_str", "E.ea", {"target": "a.g"}],
+                                ["function", "C.only", {}], ["attribute", "both", {}], ["function", "t", {}]]
+                        stb = head + (sprobe + fill if pos == 0 else fill[:3] + sprobe + fill[3:] if pos == 1 else fill + sprobe)
+                        for first in ("regular", "stubs"):
+                            for api in ("set_member", "setitem"):
+                                one = ["set", "set_member", where, key, "module", {"members": reg}]
+                                two = ["set", api, where, key, "stub", {"members": stb}]
+                                if first == "stubs":
+                                    one, two = ["set", "set_member", where, key, "stub", {"members": stb}], ["set", api, where, key, "module", {"members": reg}]
+                                yield [one, ["set", "set_member", "b", "am", "alias_obj", {"target": mp}], two, ["resolve", "b.am"],
+                                       ["set", "set_member", "coll", f"{mp}.E.z", "function", {}], ["get", "get_member", "coll", f"{mp}.C"]]
+
+
 # -- random long histories ------------------------------------------------------------------------
 def gen_history(rng: random.Random, rec, length: int) -> tuple[list, dict]:  # noqa: ANN001, C901, PLR0912, PLR0915
     """Generate a history op by op against the evolving state (so that most operations are applicable) and judge it."""
@@ -1239,12 +1381,53 @@ def gen_history(rng: random.Random, rec, length: int) -> tuple[list, dict]:  # n
             specs.append([kind, name, opt])
         return specs
 
+    def module_specs(dest: tuple, there, nodes):  # noqa: ANN001, ANN202
+        """Members of a fresh module / stubs module stored at ``dest``: any kind, nested below classes listed earlier, names shared
+        with the module that is there now (if any) or not; aliases that resolve, do not resolve, or form a cycle inside the module."""
+        specs: list = []
+        classes: list[str] = []
+        used: set[str] = set()
+        pool = list(there.members) if there is not None else []
+        below = {c: list(m.members) for c, m in there.members.items() if m.kind == "class"} if there is not None else {}
+        mp = ".".join(dest)
+        for _ in range(rng.randint(0, 6)):
+            kind = rng.choice(["function", "attribute", "class", "class", "alias_str", "alias_str", "alias_obj"])
+            pre = rng.choice(classes) if classes and rng.random() < 0.35 else None
+            names = (below.get(pre, []) if pre else pool)
+            leaf = rng.choice(names) if names and rng.random() < 0.6 else rng.choice(CLASS_NAMES if kind == "class" else LEAF_NAMES)
+            dotted = f"{pre}.{leaf}" if pre else leaf
+            if dotted in used or dotted.count(".") > 1:
+                continue
+            opt: dict = {}
+            if kind == "alias_str":
+                r0 = rng.random()
+                siblings = [u.rsplit(".", 1)[-1] for u in used if (u.rsplit(".", 1)[0] if "." in u else None) == pre]
+                if r0 < 0.25:
+                    opt = {"target": "ext.impl." + leaf}                                  # nothing there: unresolvable
+                elif r0 < 0.45 and siblings:
+                    opt = {"target": f"{mp}.{(pre + '.') if pre else ''}{rng.choice(sorted(siblings))}"}   # a member next to it (cycles possible)
+                elif r0 < 0.55:
+                    opt = {"target": f"{mp}.{(pre + '.') if pre else ''}{rng.choice(LEAF_NAMES)}"}   # a later member, or nothing
+                else:
+                    opt = {"target": rng.choice(STRING_TARGETS)}
+                if opt["target"] == f"{mp}.{dotted}":
+                    continue
+            elif kind == "alias_obj":
+                if not nodes:
+                    continue
+                opt = {"target": ".".join(rng.choice(nodes)[0]), "ctor_parent": rng.random() < 0.5}
+            used.add(dotted)
+            if kind == "class":
+                classes.append(dotted)
+            specs.append([kind, dotted, opt])
+        return specs
+
     def pick_op():  # noqa: ANN202, C901, PLR0911, PLR0912, PLR0915
         conts = containers()
         aliases = [(parts, n) for parts, n, _c in w.tree.walk() if n.kind == "alias"]
         nodes = [(parts, n) for parts, n, _c in w.tree.walk()]
         labelled = list(w.labels.values())
-        loose_conts = [n for n in labelled if n.kind in ("module", "class") and not w.tree.in_tree(n)]
+        loose_conts = [n for n in labelled if n.kind in ("module", "class") and n.suffix == ".py" and not w.tree.in_tree(n)]
         if loose_conts and rng.random() < 0.07:    # work on a container that hangs outside the tree (deleted, replaced, not yet attached)
             c = rng.choice(loose_conts)
             where, r0 = "@" + c.label, rng.random()
@@ -1286,10 +1469,26 @@ def gen_history(rng: random.Random, rec, length: int) -> tuple[list, dict]:  # n
         if r < 0.40 or not nodes:     # insertion / replacement
             api = "set_member" if rng.random() < 0.65 else "setitem"
             r2 = rng.random()
-            if r2 < 0.12 or not conts:
+            if r2 < 0.14 or not conts:
+                mods = [(parts, n) for parts, n in conts if n.kind == "module"]
+                if mods and rng.random() < 0.3:          # as a submodule
+                    hparts, host = rng.choice(mods)
+                    name = rng.choice(SUBMODULE_NAMES)
+                    dest, there = (*hparts, name), host.members.get(name)
+                    where, key = address(dest)
+                else:
+                    name = rng.choice(MODULE_NAMES)
+                    dest, there = (name,), w.tree.root.get(name)
+                    where, key = "coll", (name if rng.random() < 0.8 else [name])
+                if there is not None and there.kind != "module":
+                    there = None
                 kind = "stub" if rng.random() < 0.25 else "module"
-                opt = {"members": member_specs(nodes)} if kind == "module" and rng.random() < 0.2 else {}
-                return ["set", api, "coll", rng.choice(MODULE_NAMES) if rng.random() < 0.8 else [rng.choice(MODULE_NAMES)], kind, opt]
+                if there is not None and rng.random() < 0.6:
+                    kind = "module" if there.suffix == ".pyi" else "stub"       # the other half of a (regular, stubs) pair
+                    api = "set_member" if rng.random() < 0.85 else api
+                r3 = rng.random()
+                opt = {} if r3 < (0.25 if there is not None else 0.6) else {"members": module_specs(dest, there, nodes)}
+                return ["set", api, where, key, kind, opt]
             if r2 < 0.20 and aliases:   # through an alias
                 aparts, _a = rng.choice(aliases)
                 where, key = address((*aparts, rng.choice(LEAF_NAMES)))
@@ -1417,6 +1616,7 @@ def shards(tier: str, seed: int) -> list[dict]:
     else:
         out += [{"kind": "random", "count": 200} for _ in range(10)]
     out.append({"kind": "inherit", "count": 400 if tier == "quick" else 6000})
+    out += [{"kind": "merge", "part": p, "parts": 2} for p in range(2)]
     return out
 
 
@@ -1427,6 +1627,14 @@ def run_shard(spec: dict, rec) -> None:  # noqa: ANN001
         from vf.checks import c16_inherit
 
         c16_inherit.run(rec, spec["seed"], spec["count"])
+        return
+    if spec["kind"] == "merge":
+        idx = 0
+        for ops in merge_histories():
+            idx += 1
+            if idx % spec["parts"] == spec["part"]:
+                report(rec, ops, run_history(rec, ops))
+        rec.maximum("module_pairs_enumerated", idx)
         return
     if spec["kind"] == "exhaustive":
         alphabet = ALPHABET if spec["alphabet"] == "full" else [ALPHABET[i] for i in SUB_ALPHABET]
